@@ -292,7 +292,7 @@ std::string CDNS::CdnsDecoder::read_string(CborType cbor_type, uint64_t length, 
         }
     }
     else {
-        while (peek_type() != CborType::SIMPLE) {
+        while (peek_type() != CborType::BREAK) {
             CborType chunk_type;
             uint8_t chunk_length_value;
             read_cbor_type(chunk_type, chunk_length_value);
